@@ -34,8 +34,15 @@ func Range(start, end, step int) SortedInts {
 	}
 
 	if end < start {
-		start, end = end, start
-		step = -step
+		//Step down from start and then reverse to get the elements in increasing order.
+		tmp := make([]int, 0, (start-end-step-1)/(-step))
+		for i := start; i > end; i += step {
+			tmp = append(tmp, i)
+		}
+		for i, j := 0, len(tmp)-1; i < j; i, j = i+1, j-1 {
+			tmp[i], tmp[j] = tmp[j], tmp[i]
+		}
+		return tmp
 	}
 
 	tmp := make([]int, 0, (end-start+step-1)/step)
